@@ -1,10 +1,24 @@
-import OmbottModel.Model.Router
+import OmbottModel.Model.RouterSpec
+import OmbottModel.Lemmas.RouterGet
+import OmbottModel.Lemmas.RouterPrio
 /-!
 C01 — Route resolution equals the plain rule-by-rule semantics.
 Property theorems only; helper lemmas live in `Lemmas/Router*.lean`.
 -/
 namespace Ombott.Router
 open Py
+
+/-- **Lookup = plain rule-by-rule matching.**  In every well-formed tree, for every filter
+environment without `rex` selectors and every path, `RadiDict.get` selects exactly the rule the
+plain matcher selects among the rules the tree holds (the matching rule that has literal text
+where every other matching rule has a wildcard at the first difference), with the values the
+filters produced, and misses iff no rule matches. -/
+theorem get_eq_spec (env : FilterEnv) (hs : NoSel env) (t : Node) (h : WFN t) (path : Str) :
+    (treeGet env t path).core =
+      (specResolve env (denote t) path).map fun x => (x.1.data, x.1.keys, x.2) := by
+  unfold treeGet denote
+  rw [getN_core env hs t h, firstMatch_eq_specResolve env _ _ (denN_sorted env t h path)]
+  cases firstMatch env (denN t) path <;> simp [coreOf]
 
 /-- "not found" is answered exactly when the tree lookup finds no route -/
 theorem resolve_notFound_iff_miss (env : FilterEnv) (R : Router) (path : Str) (ms : List Str) :
